@@ -7,6 +7,7 @@ import (
 	"fmt"
 	"sort"
 	"sync"
+	"sync/atomic"
 	"time"
 
 	"github.com/hprose/hprose-golang/v3/rpc/core"
@@ -87,7 +88,18 @@ func c17Sem(t *tr.Writer, id int, c c17Case) {
 	next := 0
 	dones := map[int]chan struct{}{}
 	cancels := map[int]context.CancelFunc{}
-	var wg sync.WaitGroup
+	// requests in flight (a sync.WaitGroup must not be waited for while new requests are added)
+	var active int64
+	allDone := func() chan struct{} {
+		ch := make(chan struct{})
+		go func() {
+			for atomic.LoadInt64(&active) > 0 {
+				time.Sleep(200 * time.Microsecond)
+			}
+			close(ch)
+		}()
+		return ch
+	}
 	var lastStart time.Time
 	startCall := func() int {
 		next++
@@ -98,9 +110,9 @@ func c17Sem(t *tr.Writer, id int, c c17Case) {
 		cctx, cancel := context.WithCancel(context.WithValue(context.Background(), callKey, cid))
 		cancels[cid] = cancel
 		t.Emit(tr.Rec{"ev": "acqB", "c": cid, "t": us()})
-		wg.Add(1)
+		atomic.AddInt64(&active, 1)
 		go func() {
-			defer wg.Done()
+			defer atomic.AddInt64(&active, -1)
 			defer close(d)
 			res := "ok"
 			func() {
@@ -161,10 +173,8 @@ func c17Sem(t *tr.Writer, id int, c c17Case) {
 			return false
 		}
 		// queued requests without a timeout would wait forever: only probe when none is queued
-		doneAll := make(chan struct{})
-		go func() { wg.Wait(); close(doneAll) }()
 		select {
-		case <-doneAll:
+		case <-allDone():
 		case <-time.After(time.Duration(c.Timeout)*time.Microsecond + 50*time.Millisecond):
 			return false
 		}
@@ -212,10 +222,8 @@ func c17Sem(t *tr.Writer, id int, c c17Case) {
 		n := len(holds)
 		mu.Unlock()
 		if n == 0 {
-			doneAll := make(chan struct{})
-			go func() { wg.Wait(); close(doneAll) }()
 			select {
-			case <-doneAll:
+			case <-allDone():
 				i = 1000
 			case <-entered:
 			case <-time.After(20 * time.Second):
@@ -247,10 +255,8 @@ func c17Sem(t *tr.Writer, id int, c c17Case) {
 		}
 		finish(0, "ok")
 	}
-	wgDone := make(chan struct{})
-	go func() { wg.Wait(); close(wgDone) }()
 	select {
-	case <-wgDone:
+	case <-allDone():
 		t.Emit(tr.Rec{"ev": "probe", "n": n})
 	case <-time.After(time.Duration(c.Timeout)*time.Microsecond + 5*time.Second):
 		t.Emit(tr.Rec{"ev": "wedged"})
